@@ -27,7 +27,7 @@ pub enum SubBackendMsgType {
 }
 
 pub(crate) struct SubSocketBackend {
-    pub(crate) peers: scc::HashMap<PeerIdentity, Peer>,
+    pub(crate) peers: Arc<scc::HashMap<PeerIdentity, Peer>>,
     fair_queue_inner: Option<Arc<Mutex<QueueInner<ZmqFramedRead, PeerIdentity>>>>,
     pub(crate) round_robin: SegQueue<PeerIdentity>,
     socket_type: SocketType,
@@ -47,7 +47,7 @@ impl SubSocketBackend {
         options: SocketOptions,
     ) -> Self {
         Self {
-            peers: scc::HashMap::new(),
+            peers: Arc::new(scc::HashMap::new()),
             fair_queue_inner,
             round_robin: SegQueue::new(),
             socket_type,
@@ -123,7 +123,7 @@ impl MultiPeerBackend for SubSocketBackend {
         if let Some(monitor) = self.monitor().lock().as_mut() {
             let _ = monitor.try_send(SocketEvent::Disconnected(peer_id.clone()));
         }
-        self.peers.remove_sync(peer_id);
+        crate::util::remove_peer_entry(&self.peers, peer_id);
         if let Some(inner) = &self.fair_queue_inner {
             inner.lock().remove(peer_id);
         }
